@@ -465,6 +465,24 @@ def check(ctx, replay=None):
         lines = generate(ctx.rng, ctx.tier, corpus)
     ctx.log("%d input lines" % len(lines))
     o, e = run_lines(drv, orc, [l for (l, _) in lines])
+    # the same lines (a prefix) under AddressSanitizer/UBSan: reads past the end that happen not to change a value
+    if not replay:
+        try:
+            asan = ctx.build_harness("c18_drv.cpp", tag="asan", flags=["-fsanitize=address,undefined", "-fno-sanitize-recover=all", "-fno-omit-frame-pointer"])
+        except core.CheckError as ex:
+            asan = None
+            res.notes.append("sanitizer build unavailable: " + str(ex)[:200])
+        if asan:
+            sub = [l for (l, _) in lines[:(1500 if ctx.tier == "quick" else 12000)]]
+            groups = [("C 1", sub[i:i + 40]) for i in range(0, len(sub), 40)]
+            so = [a for (_, ans) in core.run_grouped_parallel(asan, groups, timeout=300, max_restarts=6, env={"ASAN_OPTIONS": "detect_leaks=0:abort_on_error=1"}) for a in ans]
+            for l, a, b in zip(sub, so, o):
+                res.evaluations += 1
+                if a != b:
+                    res.violation("sanitizer", "the sanitizer build answers differently (memory error or undefined behaviour): %s vs %s | %s" % (a[:80], b[:80], l[:160]),
+                                  {"line": l}, expected=b[:300], observed=a[:300])
+                    break
+            res.count("sanitizer-lines", len(sub))
     seen_kinds = {}
     for (line, meta), a, b in zip(lines, o, e):
         res.count("line:" + meta["src"])
